@@ -95,6 +95,10 @@ def RG (s : SeqState) (r : Raw) : Prop := SG s r.st
 
 theorem RG_fail {s : SeqState} (hi : SeqInv s) (e : Err) : RG s (fail s e) := SG.rfl' hi
 theorem RG_done {s s' : SeqState} (h : SG s s') : RG s (done s') := h
+theorem RG_orRollback {s : SeqState} {r : Raw} (hi : SeqInv s) (h : RG s r) : RG s (r.orRollback s) := by
+  rcases Raw.orRollback_cases r s with e | ⟨e, he⟩
+  · rw [e]; exact h
+  · rw [he]; exact RG_fail hi _
 
 theorem RG_withChan {s : SeqState} {n : ChName} {f : ChanState → CRes} (hi : SeqInv s)
     (hf : ∀ c, ChanInv s.dev.maxSeqDur c → Good s.dev.maxSeqDur c (f c).c) : RG s (s.withChan n f) := by
@@ -351,7 +355,8 @@ theorem stepRaw_RG {s : SeqState} (hd : DevOk s.dev) (hi : SeqInv s) (op : Op) :
               split
               · exact addChannel_SG hi (hfc _)
               · split
-                · exact SG.trans (addChannel_SG hi (hfc _)) (RG_targetCore (addChannel_SG hi (hfc _)).1 _ _)
+                · exact RG_orRollback hi
+                    (SG.trans (addChannel_SG hi (hfc _)) (RG_targetCore (addChannel_SG hi (hfc _)).1 _ _))
                 · exact addChannel_SG hi (hfc _)
   | configDetMap dmmId maxW sumW =>
     simp only [stepRaw]
